@@ -569,18 +569,18 @@ def run(tier, seed):
             else:
                 cnt["different_map_unequal"] += 1
                 nontriv.add((c["kind"], m["shape"]))
-        if hflag == "eq-hash-differs":
+        if hflag == "hd":
             cnt["eq_hash_differs"] += 1
             if len(eqhash_ex) < 12 and m["shape"] not in {e["shape"] for e in eqhash_ex}:
                 eqhash_ex.append({"shape": m["shape"], "a": m["str"][0], "b": m["str"][1], "mutation": c["kind"]})
-        if hflag == "hash-collision":
+        if hflag == "hc":
             cnt["hash_collisions"] += 1
-        if aflag == "attr-ignored":
+        if aflag == "ai":
             cnt["attr_ignored"] += 1
             attr_ex.append({"a": m["a"], "b": m["b"], "mutation": c["kind"], "hash_equal": c["hab"]})
         for flag, nm in ((eqm, "eqmodel"), (keym, "keymodel")):
-            if flag in ("agree", "drift"):
-                cnt[f"{nm}_{flag}"] += 1
+            if flag in ("a", "d"):
+                cnt[f"{nm}_{'agree' if flag == 'a' else 'drift'}"] += 1
     if len(samples) < 5:
         k = next(k for k in range(nreal) if cases[k]["kind"].startswith("mut:param-2pi") and cases[k]["hasop"])
         samples.append({"a": meta[k]["str"][0], "b": meta[k]["str"][1], "mutation": cases[k]["kind"], "equal": cases[k]["eab"],
